@@ -80,6 +80,9 @@ func (d docGen) value(depth int, trap bool) interface{} {
 }
 
 func (d docGen) object(depth int, trap bool, n int) map[string]interface{} {
+	if rn(60) == 59 {
+		return map[string]interface{}(nil) // typed nil object
+	}
 	m := map[string]interface{}{}
 	for i := 0; i < n; i++ {
 		m[d.key(trap)] = d.value(depth, trap)
@@ -88,9 +91,33 @@ func (d docGen) object(depth int, trap bool, n int) map[string]interface{} {
 }
 
 func (d docGen) array(depth int, trap bool, n int) []interface{} {
+	if rn(60) == 59 {
+		return []interface{}(nil) // a Go-built document may hold a typed nil array
+	}
 	a := make([]interface{}, n)
 	for i := range a {
 		a[i] = d.value(depth, trap)
+	}
+	switch rn(8) {
+	case 6:
+		// spare capacity behind the array, as encoding/json leaves it (it grows by append)
+		b := make([]interface{}, n, n+1+rn(8))
+		copy(b, a)
+		return b
+	case 7:
+		// a window of a larger backing array whose other windows are siblings in the document
+		if n >= 2 {
+			k := 1 + rn(n-1)
+			for i := k; i < n; i++ {
+				if _, isArr := a[i].([]interface{}); isArr {
+					return a
+				}
+			}
+			// a[0:k] holds as element k-1 ... keep it simple: first element becomes the tail window
+			tail := a[k:n:n]
+			head := a[0:k] // cap reaches over the tail
+			return []interface{}{head, tail}
+		}
 	}
 	return a
 }
@@ -118,7 +145,7 @@ func (d docGen) member() interface{} {
 
 // sizes around powers of two: thresholds in buffer management ("more than 16", "cap > 128")
 // are only reached by documents of those sizes
-var bigSizes = []int{15, 16, 17, 31, 32, 33, 64, 65, 127, 128, 129, 130, 200, 256, 257, 513}
+var bigSizes = []int{15, 16, 17, 31, 32, 33, 64, 65, 127, 128, 129, 130, 200, 256, 257, 300, 513}
 
 // bigDoc builds a wide document: an array (or an object holding one) with many elements.
 func (d docGen) bigDoc() interface{} {
@@ -478,6 +505,10 @@ func (g *pathGen) awareStep() (text string, single bool, ok bool) {
 		case 4:
 			i, j := rn(n), rn(n)
 			g.cur = t[i]
+			if chance(40) {
+				// a union holding a wildcard next to something else
+				return pick([]string{"[*," + strconv.Itoa(i) + "]", "[" + strconv.Itoa(i) + ",*]", "[*,*]", "[*,0:1]"}), false, true
+			}
 			return "[" + strconv.Itoa(i) + "," + strconv.Itoa(j) + "]", false, true
 		case 5:
 			g.cur = t[0]
@@ -782,8 +813,23 @@ func genPath(funcs uint32, trap bool, maxSteps, maxFuncs int) *PathSpec {
 	return genPathFor(nil, funcs, trap, maxSteps, maxFuncs)
 }
 
+// genLongPath renders a very long but simple path (hundreds of steps): buffers of the parser
+// that grow with the path length are only exercised by those.
+func genLongPath() *PathSpec {
+	n := []int{40, 70, 150, 300, 600}[rn(5)]
+	unit := pick([]string{".a", "['a']", "[0]", "[?(@.a)]", ".*"})
+	if unit == "[?(@.a)]" {
+		n = n/8 + 1
+	}
+	s := "$" + strings.Repeat(unit, n)
+	return &PathSpec{Text: s, Prefix: s}
+}
+
 // genPathFor generates a path that, with high probability, selects something in doc.
 func genPathFor(doc interface{}, funcs uint32, trap bool, maxSteps, maxFuncs int) *PathSpec {
+	if rn(150) == 149 {
+		return genLongPath()
+	}
 	spec := &PathSpec{SingleValued: true}
 	g := &pathGen{funcs: funcs, trap: trap, spec: spec, cur: doc, aware: doc != nil}
 	if rn(12) == 11 {
